@@ -111,6 +111,17 @@ theorem sendGate_refuse (m : Msg) (c : Conn)
       Bool.false_eq_true]
     rfl
 
+/-- `send_msg` of a freshly numbered message in an established phase -/
+theorem sendMsg_fresh (env : Env) (m : Msg) (c : Conn) (h6 : st_NETWORK_CONN_ESTABLISHED < c.state)
+    (h7 : ¬ (c.role = roleInitiator ∧ c.state = st_LOGON_INITIAL_SENT ∧ m.mtype ≠ mLogout))
+    (h1 : m.mtype ≠ mTestRequest) (h4 : m.mtype ≠ mSequenceReset) (hpd : m.get? tPossDupFlag = none)
+    (hl : frameLatin1 (buildFrame c.sess env.stamp m c.sess.nextOut) = true)
+    (hrows : AllLt c.sess.nextOut c.journal.out) (hs : c.sock = true) :
+    sendMsg env m c = ⟨.ok (), sentFresh c (buildFrame c.sess env.stamp m c.sess.nextOut),
+      [.write (buildFrame c.sess env.stamp m c.sess.nextOut)]⟩ := by
+  rw [sendMsg, M.bind_ok (sendGate_pass m c h6 h7), sendCore_fresh env m c h1 h4 hpd hl hrows hs]
+  rfl
+
 theorem sendMsg_gate_ok {env : Env} {m : Msg} {c c1 : Conn} {e1 : List Effect}
     (h : sendGate m c = ⟨.ok (), c1, e1⟩) :
     sendMsg env m c = ⟨(sendCore env m c1).res, (sendCore env m c1).conn, e1 ++ (sendCore env m c1).eff⟩ :=
